@@ -83,7 +83,7 @@ def shape_tref(sh, n_offsets):
     return False if sh["tref"] == "none" else (T0 - 3.25)
 
 
-def make_data(n=5, layout="short", err="hetero", unit="km/s", t_ref=None, seed=0, n_surveys=1, mixed_units=False, t_ref_scale="tcb", interleave=False, y_from=None, raw="clean", container="list"):
+def make_data(n=5, layout="short", err="hetero", unit="km/s", t_ref=None, seed=0, n_surveys=1, mixed_units=False, t_ref_scale="tcb", interleave=False, y_from=None, raw="clean", container="list", sliced=False):
     """Returns (data or list of data, plain dict t, y, sig [km/s], t_ref, labels).
 
     raw="dirty": every RVData is built from epochs in scrambled order with two unusable rows mixed in (NaN velocity at an epoch
@@ -143,7 +143,23 @@ def make_data(n=5, layout="short", err="hetero", unit="km/s", t_ref=None, seed=0
             return tj.RVData(Time(tt2, format="mjd", scale="tcb"), yy2, ss2, **kws)
         return tj.RVData(Time(tt_, format="mjd", scale="tcb"), yy_, ss_, **kws)
 
-    if n_surveys == 1:
+    if n_surveys == 1 and sliced and t_ref is None:
+        # the data set is a SELECTION of a longer one (an earlier and a later epoch are cut away by slicing / masking): it is a
+        # data set of its own, with its own (default) reference epoch
+        tp = np.concatenate([[float(t.min()) - 4.2], t, [float(t.max()) + 6.1]])
+        yp = np.concatenate([[7.7], y, [-3.3]])
+        sp = np.concatenate([[0.6], sig, [0.7]])
+        parent = tj.RVData(Time(tp, format="mjd", scale="tcb"), yp * f * uu, sp * f * uu)
+        if sliced == "mask":
+            m_ = np.ones(len(tp), dtype=bool)
+            m_[0] = m_[-1] = False
+            data = parent[m_]
+        else:
+            data = parent[1:-1]
+        # which reference epoch a selection gets is not fixed by any property (its own earliest time, or its parent's): the
+        # reference follows the object, and C04 / C15 demand that the object is consistent with itself
+        tr = float(data._t_ref_bmjd)
+    elif n_surveys == 1:
         data = mk(t, y * f * uu, sig * f * uu, **kw)
     else:
         # time-disjoint surveys (interleaving is C08's subject): contiguous blocks
